@@ -20,6 +20,7 @@ import YashModel.Exec.BuiltinLemmas
 import YashModel.Exec.LawLemmas
 import YashModel.Exec.Identify
 import YashModel.Exec.LoopIrrelevance
+import YashModel.Exec.ReadEval
 namespace YashModel.Exec
 
 /-! ### ★ stack_balanced: every push has its pop on every path -/
@@ -1704,5 +1705,69 @@ theorem break_tables (isBreak p : Bool) (stack : List Frame) (n : Nat) (h : Buil
     Builtins.breakParse p [] = .ok Generated.ExecTables.breakDefaultCount := by
   refine ⟨by simp [Builtins.breakRun, h, Generated.ExecTables.breakLevelOffset,
     Generated.ExecTables.continueLevelOffset], Builtins.breakParse_nil p⟩
+
+/-! ### the read-eval loop's `executed` flag (/repo 4afb140; Exec/ReadEval.lean) -/
+
+/-- `runScript` (the loop the whole-shell theorems are about) is `read_eval_loop_impl` entered with `executed` set:
+    it never resets `$?` -/
+theorem readEvalLoop_true (fuel : Nat) : ∀ (s : St) (lines : List Line),
+    readEvalLoop fuel s lines true = runScript fuel s lines := by
+  induction fuel with
+  | zero => intro s lines; simp [readEvalLoop, runScript]
+  | succ fuel ih =>
+    intro s lines
+    cases lines with
+    | nil => simp [readEvalLoop, runScript]
+    | cons l rest =>
+      cases l with
+      | syntaxError => simp [readEvalLoop, runScript]
+      | cmds line =>
+        simp only [readEvalLoop, runScript, Bool.true_or]
+        generalize pollWith (execList fuel) s .continue_ = x
+        obtain ⟨s0, r0⟩ := x
+        cases r0 with
+        | continue_ =>
+          simp only
+          generalize execList fuel s0 line = y
+          obtain ⟨s1, r⟩ := y
+          cases r <;> simp [ih]
+        | _ => rfl
+
+theorem readEvalLoop_blank (n : Nat) : ∀ (fuel : Nat) (s : St) (executed : Bool), n + 2 ≤ fuel → s.trapDue = none →
+    readEvalLoop fuel s (List.replicate n (.cmds [])) executed =
+      (if executed then s else { s with status := 0 }, .continue_) := by
+  induction n with
+  | zero =>
+    intro fuel s executed hf _
+    obtain ⟨f, rfl⟩ : ∃ f, fuel = f + 1 := ⟨fuel - 1, by omega⟩
+    simp [readEvalLoop]
+  | succ n ih =>
+    intro fuel s executed hf ht
+    obtain ⟨f, rfl⟩ : ∃ f, fuel = f + 2 := ⟨fuel - 2, by omega⟩
+    simp only [List.replicate_succ, readEvalLoop, pollWith_none _ _ _ ht, execList, List.isEmpty_nil,
+      Bool.not_true, Bool.or_false]
+    exact ih (f+1) s executed (by omega) ht
+
+/-- a script (main input, `eval` text, `.` file) whose lines hold no command at all — blank or comment only — ends
+    with `$?` = 0 whatever `$?` was before, having changed nothing else (POSIX: zero when no command is executed) -/
+theorem script_without_commands_status_zero (n fuel : Nat) (s : St) (hf : n + 2 ≤ fuel) (ht : s.trapDue = none) :
+    readEvalLoop fuel s (List.replicate n (.cmds [])) false = ({ s with status := 0 }, .continue_) := by
+  simpa using readEvalLoop_blank n fuel s false hf ht
+
+/-- blank and comment-only lines after a command keep its status: once a command has been executed, any number of
+    lines without commands leaves the state — `$?` included — as it is -/
+theorem trailing_blank_lines_keep_status (n fuel : Nat) (s : St) (hf : n + 2 ≤ fuel) (ht : s.trapDue = none) :
+    readEvalLoop fuel s (List.replicate n (.cmds [])) true = (s, .continue_) := by
+  simpa using readEvalLoop_blank n fuel s true hf ht
+
+/-- not vacuous, and the flag is set by the first line that holds a command, not before: `# c` / `st 4` / `# c` entered
+    with `$?` = 3 ends with 4; `# c` / blank alone ends with 0; a syntax error counts as executed (status 2) -/
+example :
+    let it (c : Cmd) : Item := .mk (.mk false [c]) []
+    (readEvalLoop 20 { status := 3 } [.cmds [], .cmds [it (.st 4)], .cmds []] false).1.status = 4 ∧
+    (readEvalLoop 20 { status := 3 } [.cmds [], .cmds []] false).1.status = 0 ∧
+    (readEvalLoop 20 { status := 3 } [.cmds [], .syntaxError] false).1.status = 2 ∧
+    (readEvalLoop 20 { status := 3 } [.cmds [it (.probe 1)], .cmds []] false).1.status = 3 := by
+  decide
 
 end YashModel.Exec
